@@ -31,6 +31,72 @@ type ChildResult struct {
 	Shared    int               `json:"shared_functions"`
 	Disagree  []string          `json:"disagree_between_builds_in_this_child"`
 	Instances int               `json:"instances"`
+	// Early: shared (or own) functions that were reachable from what a Package.Build or
+	// MethodValue call had just returned, had no body at that moment, and got one later
+	Early       []string `json:"returned_before_built"`
+	ReachChecks int      `json:"reach_checks"`
+	ReachFuncs  int      `json:"reach_functions_visited"`
+}
+
+// sharedFn reports whether f is built by whichever builder needs it first.
+func sharedFn(f *ir.Function) bool {
+	// (wrappers, thunks, instances and functions made from type information on demand
+	// belong to no package; a package initializer is synthetic but its package's own)
+	for f.Parent() != nil {
+		f = f.Parent()
+	}
+	return f.Pkg == nil
+}
+
+// reachIncomplete walks what is reachable from roots through functions that must be
+// complete once a build of package own (nil: none) has returned — own's functions and
+// shared functions — and returns those without a body.
+func reachIncomplete(own *ir.Package, roots []*ir.Function) (incomplete []*ir.Function, visited int) {
+	seen := map[*ir.Function]bool{}
+	work := append([]*ir.Function(nil), roots...)
+	for len(work) > 0 {
+		f := work[len(work)-1]
+		work = work[:len(work)-1]
+		if f == nil || seen[f] {
+			continue
+		}
+		seen[f] = true
+		if !(sharedFn(f) || (own != nil && f.Pkg == own)) {
+			continue // another package's own function: its builder may still be at work
+		}
+		visited++
+		if len(f.Blocks) == 0 {
+			incomplete = append(incomplete, f)
+			continue
+		}
+		work = append(work, f.AnonFuncs...)
+		var ops []*ir.Value
+		for _, b := range f.Blocks {
+			for _, in := range b.Instrs {
+				ops = in.Operands(ops[:0])
+				for _, op := range ops {
+					if op == nil || *op == nil {
+						continue
+					}
+					if g, ok := (*op).(*ir.Function); ok {
+						work = append(work, g)
+					}
+				}
+			}
+		}
+	}
+	return incomplete, visited
+}
+
+func pkgFuncs(p *ir.Package) []*ir.Function {
+	var out []*ir.Function
+	for _, m := range p.Members {
+		if f, ok := m.(*ir.Function); ok {
+			out = append(out, f)
+		}
+	}
+	out = append(out, p.Functions...)
+	return out
 }
 
 var regRe = regexp.MustCompile(`\bt[0-9]+\b`)
@@ -171,10 +237,24 @@ func Child(dir, mode string, procs, builds int, patterns []string) {
 	var first map[string]string
 	for b := 0; b < builds; b++ {
 		bm := ir.BuilderMode(0)
+		mode, inst := strings.CutSuffix(mode, "+inst")
+		if inst {
+			bm |= ir.InstantiateGenerics
+		}
 		if mode == "serial" {
 			bm |= ir.BuildSerially
 		}
 		prog, irpkgs := irutil.Packages(pkgs, bm)
+		var early []*ir.Function
+		var earlyMu sync.Mutex
+		check := func(own *ir.Package, roots []*ir.Function) {
+			inc, n := reachIncomplete(own, roots)
+			earlyMu.Lock()
+			early = append(early, inc...)
+			res.ReachChecks++
+			res.ReachFuncs += n
+			earlyMu.Unlock()
+		}
 		switch mode {
 		case "serial", "parallel":
 			prog.Build()
@@ -202,12 +282,27 @@ func Child(dir, mode string, procs, builds int, patterns []string) {
 			wg.Wait()
 		case "per-package-racing-methodvalue":
 			var wg sync.WaitGroup
-			for _, p := range irpkgs {
+			// the package with the most functions starts first, the others a moment later:
+			// builders that finish early then have to wait for a slow one
+			order := append([]*ir.Package(nil), irpkgs...)
+			sort.SliceStable(order, func(i, j int) bool {
+				return order[i] != nil && order[j] != nil && len(order[i].Functions) > len(order[j].Functions)
+			})
+			for i, p := range order {
 				if p == nil {
 					continue
 				}
+				if i == 1 {
+					runtime.Gosched()
+				}
 				wg.Add(1)
-				go func(p *ir.Package) { defer wg.Done(); p.Build() }(p)
+				go func(p *ir.Package) {
+					defer wg.Done()
+					p.Build()
+					// Build has returned: everything p's functions can reach that is p's own
+					// or shared must be complete now
+					check(p, pkgFuncs(p))
+				}(p)
 			}
 			// meanwhile, ask for methods of every named type of every package
 			for g := 0; g < 4; g++ {
@@ -226,7 +321,9 @@ func Child(dir, mode string, procs, builds int, patterns []string) {
 							for _, T := range typesOf(t) {
 								ms := prog.MethodSets.MethodSet(T)
 								for k := 0; k < ms.Len(); k++ {
-									prog.MethodValue(ms.At(k))
+									if fn := prog.MethodValue(ms.At(k)); fn != nil {
+										check(nil, []*ir.Function{fn})
+									}
 								}
 							}
 						}
@@ -235,10 +332,15 @@ func Child(dir, mode string, procs, builds int, patterns []string) {
 			}
 			wg.Wait()
 			prog.Build()
+			for _, f := range early {
+				if len(f.Blocks) > 0 {
+					res.Early = append(res.Early, identity(f))
+				}
+			}
 		}
-		funcs, dups, unbuilt, shared, inst := dump(prog)
+		funcs, dups, unbuilt, shared, ninst := dump(prog)
 		res.Builds++
-		res.Shared, res.Instances = shared, inst
+		res.Shared, res.Instances = shared, ninst
 		res.DupKeys = append(res.DupKeys, dups...)
 		res.Unbuilt = append(res.Unbuilt, unbuilt...)
 		if first == nil {
